@@ -13,7 +13,7 @@ Rec(r) == [id |-> r.id, type |-> r.type, ver |-> r.ver, name |-> r.name, num |->
            refs |-> [i \in DOMAIN r.refs |-> [s |-> r.refs[i].s, v |-> r.refs[i].v]],
            src |-> r.src, tgt |-> r.tgt, rtype |-> r.rtype, creator |-> r.creator]
 Recs(q) == { Rec(q[i]) : i \in DOMAIN q }
-Flt(f) == [prop |-> f.prop, op |-> f.op, val |-> IF f.op = "in" THEN ToSet(f.val) ELSE f.val]
+Flt(f) == [prop |-> f.prop, op |-> f.op, val |-> IF f.op \in {"in", "=seq", "!=seq"} THEN ToSet(f.val) ELSE f.val]
 Flts(q) == { Flt(q[i]) : i \in DOMAIN q }
 Rej(e, c) == PrintT(<<"REJECT", l, e.op, c>>)
 \* the same, naming the types of the objects that are wrongly present or absent (to tell causes apart)
